@@ -40,5 +40,6 @@ def run(e, R, tier):
         SC.r_scn_start,
         B.r_mgr_total,
         C.r_feeder,
+        L.r_drop_resolves,
     ])
     R.trust("threading._register_atexit hooks run before non-daemon threads are joined; weakref callbacks run when the referent dies")
